@@ -86,6 +86,16 @@ func knownMinLen(v ssa.Value, fs []facts.Fact) int64 {
 				return hi
 			}
 		}
+		// s[K:] of a slice known to have at least n elements has at least n-K
+		if x.Low != nil && x.High == nil {
+			if lo, ok := constInt(x.Low); ok && lo >= 0 {
+				if _, isSlice := x.X.Type().Underlying().(*types.Slice); isSlice {
+					if n := knownMinLen(x.X, fs); n >= lo {
+						return n - lo
+					}
+				}
+			}
+		}
 	case *ssa.Const:
 		if x.Value != nil && x.Value.Kind().String() == "String" {
 			return int64(len(x.Value.ExactString())) - 2
